@@ -311,6 +311,11 @@ fn main() {
                     format!("{{\"ready\":{},\"ok\":{},\"state\":{},\"opens\":{},\"closes\":{},\"others\":{},\"close_err\":{}}}", out.is_some(), matches!(out, Some(Ok(()))), cidx(c.local_state()), sink.opens, sink.closes, sink.others, sink.close_err)
                 }
             }
+            // topup <n> <processed_before> <k> <single 0|1>
+            "topup" => {
+                let r = receiver_auto_credit_dispose(nums[0] as u32, nums[1] as u32, nums[2] as u32, nums[3] == 1);
+                format!("{{\"ok\":{},\"flows\":{},\"processed_after\":{}}}", r.ok, r.flows_with_full_credit, r.processed_after)
+            }
             // wakeup <pos> <credit>: one waiter with no credit, one grant of <credit> placed
             //   pos 0: before the first poll, 1: at the cfg schedule point (between the failed credit
             //   check and the creation of the wait future), 2: after the first poll returned Pending;
